@@ -86,6 +86,10 @@ type Chain struct {
 	Pending []PendingTx
 	Halted  bool
 
+	Accounts map[string]*Account // tx-signing accounts by name
+	AccOrder []string
+	SeqOf    func(addr sdk.AccAddress) uint64 // committed sequence number of an account
+
 	// VoteFilter, if set, restricts last-commit vote infos to validators for which it returns true
 	// (precondition "the signer of the previous block is still known to the staking module").
 	VoteFilter func(addr []byte) bool
@@ -93,17 +97,22 @@ type Chain struct {
 
 // InitChain runs InitChain and prepares the driver; the first block produced has height 1.
 func (c *Chain) InitChain(genesisTime time.Time, appState []byte, consParams *cmtproto.ConsensusParams) {
+	c.InitChainAt(genesisTime, appState, consParams, 1)
+}
+
+// InitChainAt is InitChain with an explicit initial height.
+func (c *Chain) InitChainAt(genesisTime time.Time, appState []byte, consParams *cmtproto.ConsensusParams, initialHeight int64) {
 	res, err := c.App.InitChain(&abci.RequestInitChain{
 		ChainId:         c.ChainID,
 		Time:            genesisTime,
 		Validators:      []abci.ValidatorUpdate{},
 		AppStateBytes:   appState,
 		ConsensusParams: consParams,
-		InitialHeight:   1,
+		InitialHeight:   initialHeight,
 	})
 	Must(err, "InitChain "+c.ChainID)
 	vals := ValSetFromUpdates(res.Validators)
-	c.Height = 0
+	c.Height = initialHeight - 1
 	c.Time = genesisTime
 	c.PrevVals = nil
 	c.Vals = vals
@@ -393,6 +402,19 @@ func (c *Chain) QueryProofAt(key []byte, version int64) ([]byte, clienttypes.Hei
 	return proof, clienttypes.NewHeight(clienttypes.ParseChainID(c.ChainID), uint64(res.Height)+1), nil
 }
 
+// ValueAt returns the raw value of an ibc-store key at a committed version.
+func (c *Chain) ValueAt(key []byte, version int64) []byte {
+	res, err := c.App.Query(context.Background(), &abci.RequestQuery{
+		Path:   fmt.Sprintf("store/%s/key", ibcexported.StoreKey),
+		Height: version,
+		Data:   key,
+	})
+	if err != nil {
+		return nil
+	}
+	return res.Value
+}
+
 // EngineSet returns the engine-side validator set of the next block as map hex pubkey -> power.
 func SetAsMap(vs *cmttypes.ValidatorSet) map[string]int64 {
 	m := map[string]int64{}
@@ -410,4 +432,21 @@ func SortedKeys[V any](m map[string]V) []string {
 	}
 	sort.Strings(ks)
 	return ks
+}
+
+// QueueTx signs msgs with the named account and queues the tx for the next block. At most one tx per
+// account and block may be queued (the sequence is taken from committed state).
+func (c *Chain) QueueTx(name, accName string, msgs ...sdk.Msg) {
+	c.QueueTxFee(name, accName, sdk.Coins{}, msgs...)
+}
+
+// QueueTxFee is QueueTx with an explicit fee.
+func (c *Chain) QueueTxFee(name, accName string, fee sdk.Coins, msgs ...sdk.Msg) {
+	acc := c.Accounts[accName]
+	if acc == nil {
+		panic(HarnessError{Msg: "unknown account " + accName + " on " + c.ChainID})
+	}
+	bz, err := SignTxWith(c.App.GetTxConfig(), c.ChainID, acc, c.SeqOf(acc.Addr()), fee, msgs...)
+	Must(err, "sign tx")
+	c.Pending = append(c.Pending, PendingTx{Name: name, Bytes: bz})
 }
